@@ -17,11 +17,14 @@ Notation region := (region code).
 
 Record frame := mkF { f_off : Z; f_lo : nat; f_hi : nat; f_lower : list loop_env; f_ret : list nat }.
 
-(* the body block: BlockStart at [f_lo], the Return that closes the definition at [f_hi] *)
-Record frame_static (F : frame) : Prop := {
+(* a function frame -- the body block: BlockStart at [f_lo], the Return that closes the definition at [f_hi] *)
+Record frame_fun (F : frame) : Prop := {
   fs_reg : region (f_lo F) (f_hi F);
   fs_bs : exists p, stmt_at code (f_lo F) = Some (FBlockStart p);
   fs_ret : exists e p, stmt_at code (f_hi F) = Some (FReturn e p) }.
+(* the top level as a frame: the whole statement vector, one global scope below the blocks *)
+Definition frame_top (F : frame) : Prop := f_lo F = 0 /\ f_hi F = length code.
+Definition frame_static (F : frame) : Prop := frame_fun F \/ frame_top F.
 
 Record loop_ok (F : frame) (l : loop_env) : Prop := {
   lk_lo : f_lo F < l_start l;
@@ -74,9 +77,11 @@ Lemma finv_next F m m' s : frame_static F -> finv F m -> stmt_at code (m_pc m) =
   m_loops m' = m_loops m -> m_loop_base m' = m_loop_base m -> m_ret m' = m_ret m -> finv F m'.
 Proof.
   intros FS [A1 A2 A3 (fl & A4 & A5 & A6 & A7) A8 A9] Hs Hnc Hnr Hpc Hlen Hl Hb Hr.
-  destruct (fs_ret F FS) as (re & rp & Hret).
   assert (Hlt : m_pc m < f_hi F).
-  { destruct (Nat.eq_dec (m_pc m) (f_hi F)) as [E|]; [|lia]. rewrite E, Hret in Hs. injection Hs as <-. exfalso. eapply Hnr; reflexivity. }
+  { destruct FS as [FS|[_ Htop]].
+    - destruct (fs_ret F FS) as (re & rp & Hret).
+      destruct (Nat.eq_dec (m_pc m) (f_hi F)) as [E|]; [|lia]. rewrite E, Hret in Hs. injection Hs as <-. exfalso. eapply Hnr; reflexivity.
+    - rewrite Htop. apply (stmt_at_lt code _ _ Hs). }
   constructor.
   - lia.
   - lia.
@@ -94,16 +99,18 @@ Qed.
 (** a forward jump that never passes a shallower position *)
 Lemma finv_fwd F m s t : frame_static F -> finv F m -> stmt_at code (m_pc m) = Some s -> delta s = 0%Z ->
   (forall p, s <> FContinue p) -> (forall e p, s <> FReturn e p) ->
-  m_pc m <= t -> sd t = sd (m_pc m) -> (forall k, m_pc m <= k -> k <= t -> (sd (m_pc m) <= sd k)%Z) ->
+  m_pc m <= t -> t < length code -> sd t = sd (m_pc m) -> (forall k, m_pc m <= k -> k <= t -> (sd (m_pc m) <= sd k)%Z) ->
   finv F (set_pc m t).
 Proof.
-  intros FS [A1 A2 A3 (fl & A4 & A5 & A6 & A7) A8 A9] Hs Hd Hnc Hnr Hle Hsd Hnd.
-  destruct (fs_ret F FS) as (re & rp & Hret). destruct (fs_bs F FS) as (bp & Hbs).
-  assert (Hlt : m_pc m < f_hi F).
-  { destruct (Nat.eq_dec (m_pc m) (f_hi F)) as [E|]; [|lia]. rewrite E, Hret in Hs. injection Hs as <-. exfalso. eapply Hnr; reflexivity. }
-  assert (Hgt : f_lo F < m_pc m).
-  { destruct (Nat.eq_dec (m_pc m) (f_lo F)) as [E|]; [|lia]. rewrite E, Hbs in Hs. injection Hs as <-. discriminate Hd. }
-  pose proof (fwd_inside code _ _ _ _ (fs_reg F FS) Hgt Hlt Hle Hnd) as Ht.
+  intros FS [A1 A2 A3 (fl & A4 & A5 & A6 & A7) A8 A9] Hs Hd Hnc Hnr Hle Htl Hsd Hnd.
+  assert (Ht : t < f_hi F).
+  { destruct FS as [FS|[_ Htop]]; [|rewrite Htop; exact Htl].
+    destruct (fs_ret F FS) as (re & rp & Hret). destruct (fs_bs F FS) as (bp & Hbs).
+    assert (Hlt : m_pc m < f_hi F).
+    { destruct (Nat.eq_dec (m_pc m) (f_hi F)) as [E|]; [|lia]. rewrite E, Hret in Hs. injection Hs as <-. exfalso. eapply Hnr; reflexivity. }
+    assert (Hgt : f_lo F < m_pc m).
+    { destruct (Nat.eq_dec (m_pc m) (f_lo F)) as [E|]; [|lia]. rewrite E, Hbs in Hs. injection Hs as <-. discriminate Hd. }
+    apply (fwd_inside code _ _ _ _ (fs_reg F FS) Hgt Hlt Hle Hnd). }
   constructor; cbn [set_pc m_pc m_scopes m_loops m_loop_base m_ret].
   - lia.
   - lia.
@@ -131,17 +138,19 @@ Proof.
   pose proof Hf as [A1 A2 A3 (fl & A4 & A5 & A6 & A7) A8 A9].
   destruct (skip_from_bs code _ _ _ _ Hb Hsk) as (S1 & _ & S3 & S4).
   pose proof (sd_S code _ _ Hs) as Hsd. cbn [delta] in Hsd.
-  destruct (fs_ret F FS) as (re & rp & Hret). destruct (fs_bs F FS) as (fbp & Hbs).
-  assert (Hlt : m_pc m < f_hi F).
-  { destruct (Nat.eq_dec (m_pc m) (f_hi F)) as [E|]; [|lia]. rewrite E, Hret in Hs. discriminate. }
-  assert (Hgt : f_lo F < m_pc m).
-  { destruct (Nat.eq_dec (m_pc m) (f_lo F)) as [E|]; [|lia]. rewrite E, Hbs in Hs. discriminate. }
   (* no dip from pc to pc2 *)
   assert (Hnd : forall k, m_pc m <= k -> k <= pc2 -> (sd (m_pc m) <= sd k)%Z).
   { intros k K1 K2. destruct (Nat.eq_dec k (m_pc m)) as [->|]; [lia|].
     destruct (Nat.eq_dec k (S (m_pc m))) as [->|]; [lia|].
     destruct (Nat.eq_dec k pc2) as [->|]; [lia|]. specialize (S4 k ltac:(lia) ltac:(lia)). lia. }
-  pose proof (fwd_inside code (f_lo F) (f_hi F) (m_pc m) pc2 (fs_reg F FS) Hgt Hlt ltac:(lia) Hnd) as Hpc2.
+  assert (Hpc2 : pc2 < f_hi F).
+  { destruct FS as [FS|[_ Htop]]; [|rewrite Htop; apply (stmt_at_lt code _ _ Hc)].
+    destruct (fs_ret F FS) as (re & rp & Hret). destruct (fs_bs F FS) as (fbp & Hbs).
+    assert (Hlt : m_pc m < f_hi F).
+    { destruct (Nat.eq_dec (m_pc m) (f_hi F)) as [E|]; [|lia]. rewrite E, Hret in Hs. discriminate. }
+    assert (Hgt : f_lo F < m_pc m).
+    { destruct (Nat.eq_dec (m_pc m) (f_lo F)) as [E|]; [|lia]. rewrite E, Hbs in Hs. discriminate. }
+    apply (fwd_inside code (f_lo F) (f_hi F) (m_pc m) pc2 (fs_reg F FS) Hgt Hlt ltac:(lia) Hnd). }
   assert (Hreg : region (S (m_pc m)) pc2) by (split; [lia|split; [exact S3|exact S4]]).
   constructor; cbn [set_pc set_loops m_pc m_scopes m_loops m_loop_base m_ret].
   - lia.
@@ -227,7 +236,7 @@ Lemma finv_init m start pc2 re rp bp (env_count : nat) :
   stmt_at code start = Some (FBlockStart bp) -> skip_block_from code m start = Ok pc2 -> stmt_at code pc2 = Some (FReturn re rp) ->
   forall m2, m_pc m2 = start -> length (m_scopes m2) = S env_count -> m_loop_base m2 = length (m_loops m2) ->
   let F := mkF (Z.of_nat (S env_count) - sd start)%Z start pc2 (m_loops m2) (m_ret m2) in
-  frame_static F /\ finv F m2.
+  frame_fun F /\ finv F m2.
 Proof.
   intros Hb Hsk Hr m2 Hpc Hlen Hbase F.
   destruct (skip_from_bs code _ _ _ _ Hb Hsk) as (S1 & _ & S3 & S4).
@@ -239,9 +248,26 @@ Proof.
 Qed.
 
 (** what the invariant gives at the end of the call: at least the caller's scopes are left *)
-Lemma finv_height F m : frame_static F -> finv F m -> (f_off F + sd (f_lo F) <= Z.of_nat (length (m_scopes m)))%Z.
+Lemma finv_height F m : frame_fun F -> finv F m -> (f_off F + sd (f_lo F) <= Z.of_nat (length (m_scopes m)))%Z.
 Proof.
   intros FS [A1 A2 A3 _ _ _]. pose proof (region_depth code _ _ _ (fs_reg F FS) A1 A2). lia.
+Qed.
+
+
+(** the top-level frame and what its invariant says *)
+Definition top_frame : frame := mkF 1%Z 0 (length code) [] [].
+Lemma top_frame_static : frame_static top_frame.
+Proof. right. split; reflexivity. Qed.
+
+(* at a top-level position outside every block and every loop: exactly the global scope, no loop, no pending call *)
+Lemma finv_top_neutral m : finv top_frame m -> sd (m_pc m) = 0%Z ->
+  (forall l, loop_ok top_frame l -> ~ inside (m_pc m) l) ->
+  length (m_scopes m) = 1 /\ m_loops m = [] /\ m_loop_base m = 0 /\ m_ret m = [].
+Proof.
+  intros [A1 A2 A3 (fl & A4 & A5 & A6 & A7) A8 A9] Hsd Hout. cbn [top_frame f_off f_lower f_ret] in *.
+  split; [rewrite Hsd in A3; lia|]. split; [|split; [exact A8|exact A9]].
+  rewrite app_nil_r in A4. rewrite A4. destruct fl as [|l fl]; [reflexivity|].
+  inversion A5; subst. inversion A6; subst. exfalso. eapply Hout; eauto.
 Qed.
 
 End FrameInv.
